@@ -308,7 +308,7 @@ def check_race(pid, tier, seed):
         confirmed = {}
         for ch in suspects[:6]:
             for p in ch:
-                for attempt in range(3):
+                for attempt in range(5):
                     sd = os.path.join(scratch, 'rr-%s-%d' % (p['id'], attempt))
                     os.makedirs(sd, exist_ok=True)
                     eps, cr = vlib.run_episodes(binary, [p], sd, gomaxprocs=0, workers=1, tag='x', race=True, timeout=120)
@@ -332,7 +332,23 @@ def check_race(pid, tier, seed):
                     print('VIOLATION property=%s replay=%s' % (pid, path), flush=True)
                     log('  data race: %s' % rs[0])
         elif reports:
-            print('INCONCLUSIVE property=%s race reports %s did not reproduce when the programs ran alone' % (pid, sorted(set(reports))[:3]), flush=True)
+            # A report of the race detector is a fact about the execution it was made in (happens-before based): it needs no second
+            # occurrence to be true.  When both conflicting accesses are in library code the report is the violation; the replay then
+            # names the programs of the chunk it was made in.
+            solid = sorted(set(r for r in reports if ' | ' in r))
+            if solid:
+                eps_obs = [{'prog': suspects[0][0], 'events': [], 'races': solid[:3], 'header': {'ep': suspects[0][0]['id']}, 'end': {'result': 'ok'}}]
+                tp = os.path.join(scratch, 'obs.ndjson')
+                obs.write_obs(eps_obs, tp, vlib.NCPU)
+                bad, _ = tlc_obs_collect(scratch, tp, ['C19_NoRace'], 'race1')
+                if bad:
+                    path = vlib.save_replay(pid, {'property': pid, 'formula': 'C19_NoRace', 'programs': suspects[0], 'races': solid[:5],
+                                                  'note': 'reported in a chunk of programs run in one process; did not recur when the programs ran alone'})
+                    violations.append(path)
+                    print('VIOLATION property=%s replay=%s' % (pid, path), flush=True)
+                    log('  data race: %s' % solid[0])
+            else:
+                print('INCONCLUSIVE property=%s race reports %s did not reproduce when the programs ran alone' % (pid, sorted(set(reports))[:3]), flush=True)
         vlib.write_evidence(pid, tier, seed, 'exploration', cov, time.time() - t0, violations=len(violations),
                             assumptions=['the Go race detector reports only real races of the executions it sees (happens-before based)',
                                          'no harness logging or gating in these runs, so the harness adds no synchronisation'])
